@@ -61,6 +61,11 @@ func (a *agg) add(r *core.Result, raw string) {
 	for k, v := range r.Stats {
 		a.stats[k] += v
 	}
+	for k, v := range r.Volatile {
+		if v > a.stats["max:"+k] {
+			a.stats["max:"+k] = v
+		}
+	}
 	a.simNs += r.SimNs
 	a.ties += r.Ties
 	a.history = append(a.history, len(a.classes))
